@@ -1,12 +1,16 @@
-/-- steps of the in-place loop of `quotedQualifierParser`: every round runs `bytes.Index` from the
-start of the token and copies the tail down — at most `len(token)` byte operations each, at least
-the bytes in front of the occurrence plus the bytes behind the prefix; charged `len(token)` -/
-def stripContCost (pre : Bytes) : Nat → Bytes → Nat
-  | 0, _ => 0
-  | f + 1, t =>
-    match findSub (10 :: pre) t 0 with
-    | none => t.length
-    | some i => t.length + stripContCost pre f (t.take (i + 1) ++ t.drop (i + 1 + pre.length))
+/-- steps of the loop of `quotedQualifierParser` (one pass since 2612fae; `acc` = `token[:w]`
+reversed, as in `stripLoop`): every round moves one byte (`token[w] = token[r]`) and compares the end
+of `token[:w]` with `p` (`bytes.HasSuffix`: at most `len(p)` bytes, at most the `w` bytes there are) —
+charged `1 + min (len p) w` -/
+def stripLoopCost (rp : Bytes) (k : Nat) : Bytes → Bytes → Nat
+  | _, [] => 0
+  | acc, c :: t =>
+    (1 + min rp.length (acc.length + 1)) +
+      (if rp.isPrefixOf (c :: acc) then stripLoopCost rp k ((c :: acc).drop k) t
+       else stripLoopCost rp k (c :: acc) t)
+
+def stripContCost (pre : Bytes) (t : Bytes) : Nat :=
+  stripLoopCost (10 :: pre).reverse pre.length [] t
 
 /-- `quotedQualifierParser(prefix)` -/
 def quotedValue (pre : Bytes) : PC Bytes := do
@@ -17,5 +21,5 @@ def quotedValue (pre : Bytes) : PC Bytes := do
   let tok ← (do match ← attempt quoted with | some t => pure t | none => do pop; fail)
   drop
   let _ ← attempt eol
-  tick (stripContCost pre tok.length tok)
-  pure (stripCont pre tok.length tok)
+  tick (stripContCost pre tok)
+  pure (stripCont pre tok)
